@@ -250,12 +250,23 @@ func Garbage(kind string, valid []byte, r *rand.Rand) []byte {
 		return b[:minInt(len(b), 6)]
 	case "zeros":
 		return make([]byte, 3)
+	case "other-type-truncated": // starts like a message of ANOTHER procedure (decodes partially before failing), cut in half
+		b := append([]byte(nil), valid[:len(valid)/2+1]...)
+		heads := [][2]byte{{0x00, 0x04}, {0x00, 0x0e}, {0x00, 0x1d}, {0x20, 0x15}, {0x00, 0x29}, {0x00, 0x1c}, {0x20, 0x0e}}
+		for i := 0; i < len(heads); i++ {
+			h := heads[(r.Intn(len(heads))+i)%len(heads)]
+			if len(b) >= 2 && (b[0] != h[0] || b[1] != h[1]) {
+				b[0], b[1] = h[0], h[1]
+				break
+			}
+		}
+		return b
 	default: // "truncated-1"
 		return append([]byte(nil), valid[:len(valid)-1]...)
 	}
 }
 
-var GarbageKinds = []string{"garbage:one-octet", "garbage:random32", "garbage:truncated-half", "garbage:choice3", "garbage:random2048", "garbage:bad-length", "garbage:zeros", "garbage:truncated-1", "garbage:random2047", "garbage:random8192"}
+var GarbageKinds = []string{"garbage:one-octet", "garbage:random32", "garbage:truncated-half", "garbage:choice3", "garbage:random2048", "garbage:bad-length", "garbage:zeros", "garbage:truncated-1", "garbage:random2047", "garbage:random8192", "garbage:other-type-truncated"}
 
 func minInt(a, b int) int {
 	if a < b {
